@@ -8,7 +8,7 @@ from harness.impl_loc import enc_loc
 
 ID = "C05"
 LEAN_MODULE = "BioCantor.Props.C05"
-EXTRA_LEAN_MODULES = ["BioCantor.Props.C05Ties2"]   # tie: regenerated construct_frames_from_location = hand model
+EXTRA_LEAN_MODULES = ["BioCantor.Props.C05Ties2", "BioCantor.Props.C05Ties3"]   # ties: regenerated construct_frames_from_location / frame-cleaning loop = hand model
 DESIGN_REF = "4/C05"
 DRIVER = "drivers/C05.lean"
 SPEC_DRIVER = "drivers/SpecC05.lean"
